@@ -495,19 +495,20 @@ Proof.
   destruct (rel_get rs s r R) as (I & D). split; [exact I|exact D].
 Qed.
 
+(* operations other than & - ^ (which are the sweeps of C07) *)
+Definition sweep_free (o : op) : Prop :=
+  match o with OInter _ _ _ | ODiff _ _ _ | OXor _ _ _ => False | _ => True end.
+
 Section History.
 Hypothesis HR : iprange_to_cidrs_spec.
 Hypothesis HM : cidr_merge_spec.
 Hypothesis HA : add_spec.
 Hypothesis HRm : remove_spec.
-Hypothesis HI : inter_spec.
-Hypothesis HD : diff_spec.
-Hypothesis HX : xor_spec.
 
-(* one step: every mutator / constructor / operator result, every argument form *)
-Theorem C06_step rs s o : Rel rs s -> wf_op o -> exists s', astep s o s' /\ Rel (ostep rs o) s'.
+(* one step: every mutator / constructor, union, every argument form *)
+Theorem C06_step_core rs s o : sweep_free o -> Rel rs s -> wf_op o -> exists s', astep s o s' /\ Rel (ostep rs o) s'.
 Proof.
-  intros R W. destruct o as [r a|r e|r e|r a|r|r|dst src|r|r|dst a b|dst a b|dst a b|dst a b]; cbn [wf_op astep ostep] in *.
+  intros SF R W. destruct o as [r a|r e|r e|r a|r|r|dst src|r|r|dst a b|dst a b|dst a b|dst a b]; cbn [wf_op astep ostep sweep_free] in *; try contradiction.
   - (* init *)
     destruct (rel_targ rs s a R W) as (Wa & Da). destruct (C06_init HR HM _ Wa) as (d & E & I & D).
     eexists. split; [reflexivity|]. rewrite E. cbn [mutr]. apply rel_put; auto. intros ver x. rewrite D. apply Da.
@@ -551,6 +552,19 @@ Proof.
     destruct (rel_get rs s a R) as (Ia & Da). destruct (rel_get rs s b R) as (Ib & Db).
     destruct (C06_union HM _ _ Ia Ib) as (d & E & I & D).
     eexists. split; [reflexivity|]. rewrite E. cbn [mutr]. apply rel_put; auto. intros ver x. rewrite D, Da, Db. tauto.
+Qed.
+
+Section Sweeps.
+Hypothesis HI : inter_spec.
+Hypothesis HD : diff_spec.
+Hypothesis HX : xor_spec.
+
+(* one step, all thirteen operations *)
+Theorem C06_step rs s o : Rel rs s -> wf_op o -> exists s', astep s o s' /\ Rel (ostep rs o) s'.
+Proof.
+  intros R W.
+  assert (G: sweep_free o -> exists s', astep s o s' /\ Rel (ostep rs o) s') by (intros SF; apply C06_step_core; assumption).
+  destruct o as [r a|r e|r e|r a|r|r|dst src|r|r|dst a b|dst a b|dst a b|dst a b]; try (apply G; exact I); cbn [astep ostep].
   - (* & *)
     destruct (rel_get rs s a R) as (Ia & Da). destruct (rel_get rs s b R) as (Ib & Db).
     destruct (HI _ _ Ia Ib) as (d & E & I & D).
@@ -564,15 +578,19 @@ Proof.
     destruct (HX _ _ Ia Ib) as (d & E & I & D).
     eexists. split; [reflexivity|]. rewrite E. cbn [mutr]. apply rel_put; auto. intros ver x. rewrite D, Da, Db. tauto.
 Qed.
+End Sweeps.
 
-(* any finite history: the registers stay valid and denote what the abstract run says *)
-Theorem C06_reachable ops : forall rs s, Rel rs s -> Forall wf_op ops ->
+(* any finite history: the registers stay valid and denote what the abstract run says.  P restricts the ops. *)
+Lemma reachable_gen (P : op -> Prop) :
+  (forall rs s o, P o -> Rel rs s -> wf_op o -> exists s', astep s o s' /\ Rel (ostep rs o) s') ->
+  forall ops rs s, Rel rs s -> Forall wf_op ops -> Forall P ops ->
   exists s', aruns s ops s' /\ Rel (fold_left ostep ops rs) s'.
 Proof.
-  induction ops as [|o ops IH]; intros rs s R W; cbn [fold_left aruns].
+  intros Step. induction ops as [|o ops IH]; intros rs s R W HP; cbn [fold_left aruns].
   - exists s. split; [reflexivity|exact R].
-  - inversion W as [|? ? Wo Wops]; subst. destruct (C06_step rs s o R Wo) as (s1 & A1 & R1).
-    destruct (IH _ _ R1 Wops) as (s' & A' & R'). exists s'. split; [exists s1; split; assumption|exact R'].
+  - inversion W as [|? ? Wo Wops]; subst. inversion HP as [|? ? Po Pops]; subst.
+    destruct (Step rs s o Po R Wo) as (s1 & A1 & R1).
+    destruct (IH _ _ R1 Wops Pops) as (s' & A' & R'). exists s'. split; [exists s1; split; assumption|exact R'].
 Qed.
 
 (* the machine of Extract/Cmd_Sets.v starts with four empty registers *)
@@ -588,15 +606,14 @@ Qed.
 
 (* every register of every reachable state satisfies the invariant, shows the canonical list of the set the abstract
    run assigns to it, and two registers compare equal iff their abstract sets coincide *)
-Theorem C06_reachable_shown ops : Forall wf_op ops ->
-  exists s', aruns aregs0 ops s' /\
-    let rs := fold_left ostep ops regs0 in
-    (forall r, SetInv (get rs r) /\ canon_nets (sorted (get rs r)) /\
-               forall ver x, den (sorted (get rs r)) ver x <-> aget s' r ver x) /\
-    (forall r1 r2, dict_eqb (get rs r1) (get rs r2) = true <-> forall ver x, aget s' r1 ver x <-> aget s' r2 ver x).
+Definition shown_ok (rs : regs) (s' : aregs) : Prop :=
+  (forall r, SetInv (get rs r) /\ canon_nets (sorted (get rs r)) /\
+             forall ver x, den (sorted (get rs r)) ver x <-> aget s' r ver x) /\
+  (forall r1 r2, dict_eqb (get rs r1) (get rs r2) = true <-> forall ver x, aget s' r1 ver x <-> aget s' r2 ver x).
+
+Lemma rel_shown rs s' : Rel rs s' -> shown_ok rs s'.
 Proof.
-  intros W. destruct (C06_reachable ops regs0 aregs0 rel0 W) as (s' & A & R). exists s'. split; [exact A|].
-  cbn zeta. split.
+  intros R. split.
   - intros r. destruct (rel_get _ _ r R) as (I & D). destruct (C06_shown _ I) as (C & Ds).
     split; [exact I|split; [exact C|]]. intros ver x. rewrite Ds. apply D.
   - intros r1 r2. destruct (rel_get _ _ r1 R) as (I1 & D1). destruct (rel_get _ _ r2 R) as (I2 & D2).
@@ -604,5 +621,38 @@ Proof.
     + rewrite <- D1, <- D2. apply H.
     + rewrite D1, D2. apply H.
 Qed.
+
+(* histories without & - ^ *)
+Theorem C06_reachable_core ops : forall rs s, Rel rs s -> Forall wf_op ops -> Forall sweep_free ops ->
+  exists s', aruns s ops s' /\ Rel (fold_left ostep ops rs) s'.
+Proof. apply (reachable_gen sweep_free). intros rs s o. apply C06_step_core. Qed.
+
+Theorem C06_reachable_shown_core ops : Forall wf_op ops -> Forall sweep_free ops ->
+  exists s', aruns aregs0 ops s' /\ shown_ok (fold_left ostep ops regs0) s'.
+Proof.
+  intros W SF. destruct (C06_reachable_core ops regs0 aregs0 rel0 W SF) as (s' & A & R). exists s'.
+  split; [exact A|apply rel_shown, R].
+Qed.
+
+Section Sweeps2.
+Hypothesis HI : inter_spec.
+Hypothesis HD : diff_spec.
+Hypothesis HX : xor_spec.
+
+Theorem C06_reachable ops : forall rs s, Rel rs s -> Forall wf_op ops ->
+  exists s', aruns s ops s' /\ Rel (fold_left ostep ops rs) s'.
+Proof.
+  intros rs s R W. apply (reachable_gen (fun _ => True)); auto.
+  - intros rs0 s0 o _. apply C06_step; assumption.
+  - apply Forall_forall. auto.
+Qed.
+
+Theorem C06_reachable_shown ops : Forall wf_op ops ->
+  exists s', aruns aregs0 ops s' /\ shown_ok (fold_left ostep ops regs0) s'.
+Proof.
+  intros W. destruct (C06_reachable ops regs0 aregs0 rel0 W) as (s' & A & R). exists s'.
+  split; [exact A|apply rel_shown, R].
+Qed.
+End Sweeps2.
 
 End History.
